@@ -36,11 +36,32 @@
 (*              total = live payload objects (= constructions - destructions)  *)
 (* Comparisons and printing of wrappers are constrained by `done` only, plus   *)
 (* the value semantics of comparing two engaged wrappers.                      *)
+(*                                                                             *)
+(* Throwing payload operations (Throwing = TRUE, lifetime-instrumented payload *)
+(* only).  A payload object can be "poisoned" (field p): every construction or *)
+(* assignment that takes its value FROM a poisoned object throws, whichever    *)
+(* way the wrapper transfers the value (copy / move construction, default      *)
+(* construction + assignment).  Value-taking actions have an argument t: the   *)
+(* value is handed over in a poisoned temporary; Poison(d) poisons the payload *)
+(* held by a wrapper through the reference value() / get<T>() returns, so that *)
+(* copies / moves / conversions FROM that wrapper throw.  After a step that    *)
+(* threw, the statement fixes: no payload object is live that was not          *)
+(* successfully constructed, every constructed payload is destroyed exactly    *)
+(* once, and has_value() is true exactly if the storage holds a live payload   *)
+(* (observable hl = has_value - live objects in the storage = 0, for every     *)
+(* constructed Optional including unspecified ones).  Hence: a failed          *)
+(* constructor leaves the slot raw; a failed emplace leaves the wrapper empty  *)
+(* (the old payload is gone, none was given); a failed assignment leaves an    *)
+(* empty target empty and an engaged target unspecified (old value or empty -  *)
+(* state "moved", which stands for "unspecified but lifetime-consistent");     *)
+(* the source of a failed copy is untouched, of a failed move unspecified.     *)
 EXTENDS Integers, Sequences, FiniteSets, TLC
 
 CONSTANTS NT,     \* number of Optional<T> slots   (slots 1..NT)
           NU,     \* number of Optional<U> slots   (slots NT+1..NT+NU)
           NA,     \* number of Any slots           (slots NT+NU+1..N)
+          Throwing, \* BOOLEAN: payload operations that throw are part of the histories
+          WithMake, \* BOOLEAN: make_optional<T>() is part of the histories (it doubles the value constructions)
           Vals    \* payload values: positive integers; drivers map them injectively
                   \* and monotonically to int / double / std::string / std::vector<int> / ...
 
@@ -56,20 +77,23 @@ AnyTypes == {"T", "X"}       \* an Any holds a T or a value of an unrelated type
 VARIABLES st, last
 vars == <<st, last>>
 
-None    == [s |-> "none",  ty |-> "-", v |-> 0]
-Empty   == [s |-> "empty", ty |-> "-", v |-> 0]
-Moved   == [s |-> "moved", ty |-> "-", v |-> 0]
-Eng(ty, v) == [s |-> "engaged", ty |-> ty, v |-> v]
+None    == [s |-> "none",  ty |-> "-", v |-> 0, p |-> FALSE]
+Empty   == [s |-> "empty", ty |-> "-", v |-> 0, p |-> FALSE]
+Moved   == [s |-> "moved", ty |-> "-", v |-> 0, p |-> FALSE]     \* moved-from, or target of a failed assignment: unspecified
+Eng(ty, v) == [s |-> "engaged", ty |-> ty, v |-> v, p |-> FALSE]
 
 Constructed(x) == x.s # "none"
 Usable(x)      == x.s \in {"empty", "engaged"}      \* its observables are defined
 IsEng(x)       == x.s = "engaged"
+Poisoned(x)    == IsEng(x) /\ x.p                    \* taking the value from its payload throws
+AfterFailedAssign(x) == IF IsEng(x) THEN Moved ELSE x   \* empty stays empty; engaged: old value or empty
 
-TypeOK == st \in [Slots -> [s : {"none", "empty", "engaged", "moved"}, ty : {"-", "T", "X"}, v : Vals \cup {0}]]
+TypeOK == st \in [Slots -> [s : {"none", "empty", "engaged", "moved"}, ty : {"-", "T", "X"}, v : Vals \cup {0}, p : BOOLEAN]]
 WellFormed == \A w \in Slots :
                 /\ IsEng(st[w]) <=> st[w].v \in Vals
                 /\ (st[w].ty # "-") => (w \in ASlots /\ IsEng(st[w]))
                 /\ (w \in ASlots /\ IsEng(st[w])) => st[w].ty \in AnyTypes
+                /\ st[w].p => (IsEng(st[w]) /\ Throwing)
 
 -------------------------------------------------------------------------------
 \* Lifetime ghost of the Optional payload storages
@@ -101,8 +125,8 @@ Legal(s0, evs, s1) ==
 ObsSlot(w, x) ==
   IF w \in OSlots THEN
        IF x.s = "none" THEN [c |-> FALSE, live |-> 0]
-       ELSE IF x.s = "moved" THEN [c |-> TRUE]
-       ELSE [c |-> TRUE, has |-> IsEng(x), v |-> x.v, live |-> IF IsEng(x) THEN 1 ELSE 0]
+       ELSE IF x.s = "moved" THEN [c |-> TRUE, hl |-> 0]
+       ELSE [c |-> TRUE, has |-> IsEng(x), v |-> x.v, live |-> IF IsEng(x) THEN 1 ELSE 0, hl |-> 0]
   ELSE IF x.s = "none" THEN [c |-> FALSE]
        ELSE IF x.s = "moved" THEN [c |-> TRUE]
        ELSE [c |-> TRUE, has |-> IsEng(x), ty |-> x.ty, v |-> x.v]
@@ -118,6 +142,7 @@ Life(s) ==
   ELSE [dead |-> 0, dup |-> 0, outside |-> EngCount(s, ASlots), total |-> EngCount(s, Slots)]
 
 Base(s)  == [done |-> "returned", world |-> World(s), life |-> Life(s)]
+Threw(s) == [done |-> "throws", world |-> World(s), life |-> Life(s)]
 Dst(s, d) == [dst |-> ObsSlot(d, s[d])]
 Src(s, w) == [src |-> ObsSlot(w, s[w])]
 Ret(r)    == [ret |-> r]
@@ -139,10 +164,16 @@ DefaultCtor(d) ==
   /\ LET s1 == [st EXCEPT ![d] = Empty]
      IN Step("DefaultCtor", [d |-> d], "", s1, <<>>, Dst(s1, d) @@ Base(s1))
 
-ValueCtor(d, v) ==
-  /\ d \in OSlots /\ st[d].s = "none"
-  /\ LET s1 == [st EXCEPT ![d] = OptVal(v)]
-     IN Step("ValueCtor", [d |-> d, v |-> v], "", s1, <<E("ctor", d)>>, Dst(s1, d) @@ Base(s1))
+\* Optional<T>(value) / make_optional<T>(value); t: the value comes in a poisoned temporary (the payload
+\* constructor throws): no wrapper is constructed, the slot stays raw
+ValueCtorLike(name, d, v, t) ==
+  /\ d \in OSlots /\ st[d].s = "none" /\ (t => Throwing)
+  /\ IF t THEN Step(name, [d |-> d, v |-> v, t |-> t], "throws", st, <<>>, Dst(st, d) @@ Threw(st))
+     ELSE LET s1 == [st EXCEPT ![d] = OptVal(v)]
+          IN Step(name, [d |-> d, v |-> v, t |-> t], "", s1, <<E("ctor", d)>>, Dst(s1, d) @@ Base(s1))
+
+ValueCtor(d, v, t)    == ValueCtorLike("ValueCtor", d, v, t)
+MakeOptional(d, v, t) == WithMake /\ ValueCtorLike("MakeOptional", d, v, t)
 
 \* what a wrapper receives from source wrapper x (copy, move, converting or not)
 Given(x) == IF IsEng(x) THEN Eng(x.ty, x.v) ELSE Empty
@@ -150,9 +181,13 @@ Given(x) == IF IsEng(x) THEN Eng(x.ty, x.v) ELSE Empty
 \* copy / move construction of slot d from the wrapper in slot s
 CtorFrom(name, d, s, move) ==
   /\ st[d].s = "none" /\ s # d /\ Usable(st[s])
-  /\ LET s1 == [st EXCEPT ![d] = Given(st[s]), ![s] = IF move /\ IsEng(st[s]) THEN Moved ELSE @]
-         ev == IF IsEng(st[s]) THEN <<E("read", s), E("ctor", d)>> ELSE <<>>
-     IN Step(name, [d |-> d, s |-> s], "src=" \o st[s].s, s1, ev, Dst(s1, d) @@ Src(s1, s) @@ Base(s1))
+  /\ IF Poisoned(st[s])
+     THEN \* the payload copy / move throws: no wrapper is constructed
+          LET s1 == [st EXCEPT ![s] = IF move THEN Moved ELSE @]
+          IN Step(name, [d |-> d, s |-> s], "src=engaged,throws", s1, <<E("read", s)>>, Dst(s1, d) @@ Src(s1, s) @@ Threw(s1))
+     ELSE LET s1 == [st EXCEPT ![d] = Given(st[s]), ![s] = IF move /\ IsEng(st[s]) THEN Moved ELSE @]
+              ev == IF IsEng(st[s]) THEN <<E("read", s), E("ctor", d)>> ELSE <<>>
+          IN Step(name, [d |-> d, s |-> s], "src=" \o st[s].s, s1, ev, Dst(s1, d) @@ Src(s1, s) @@ Base(s1))
 
 SameKind(d, s) == d \in OSlots /\ s \in OSlots /\ Kind(d) = Kind(s)
 Converts(d, s) == d \in TSlots /\ s \in USlots          \* Optional<T> from Optional<U>
@@ -164,31 +199,42 @@ ConvMoveCtor(d, s) == Converts(d, s) /\ CtorFrom("ConvMoveCtor", d, s, TRUE)
 
 \* Optional: assignments (into a constructed wrapper: empty, engaged or moved-from)
 
-AssignValue(d, v) ==
-  /\ d \in OSlots /\ Constructed(st[d])
-  /\ LET s1 == [st EXCEPT ![d] = OptVal(v)]
-         ev == IF st[d].s = "empty" THEN <<E("ctor", d)>> ELSE <<E("assign", d)>>
-     IN Step("AssignValue", [d |-> d, v |-> v], "dst=" \o st[d].s, s1, ev, Dst(s1, d) @@ Base(s1))
+AssignValue(d, v, t) ==
+  /\ d \in OSlots /\ Constructed(st[d]) /\ (t => Throwing)
+  /\ IF t THEN LET s1 == [st EXCEPT ![d] = AfterFailedAssign(@)]
+               IN Step("AssignValue", [d |-> d, v |-> v, t |-> t], "dst=" \o st[d].s \o ",throws", s1, <<>>, Dst(s1, d) @@ Threw(s1))
+     ELSE LET s1 == [st EXCEPT ![d] = OptVal(v)]
+              ev == IF st[d].s = "empty" THEN <<E("ctor", d)>> ELSE <<E("assign", d)>>
+          IN Step("AssignValue", [d |-> d, v |-> v, t |-> t], "dst=" \o st[d].s, s1, ev, Dst(s1, d) @@ Base(s1))
 
 AssignFrom(name, d, s, move) ==
   /\ Constructed(st[d]) /\ Usable(st[s]) /\ (move => s # d)
-  /\ LET s1  == [st EXCEPT ![d] = Given(st[s]), ![s] = IF move /\ IsEng(st[s]) THEN Moved ELSE @]
-         ev  == IF IsEng(st[s])
-                THEN <<E("read", s), IF st[d].s = "empty" THEN E("ctor", d) ELSE E("assign", d)>>
-                ELSE IF st[d].s = "empty" THEN <<>> ELSE <<E("dtor", d)>>
-         cls == (IF s = d THEN "src=self" ELSE "src=" \o st[s].s) \o ",dst=" \o st[d].s
-     IN Step(name, [d |-> d, s |-> s], cls, s1, ev, Dst(s1, d) @@ Src(s1, s) @@ Base(s1))
+  /\ IF Poisoned(st[s])
+     THEN /\ s # d
+          /\ LET s1  == [st EXCEPT ![d] = AfterFailedAssign(@), ![s] = IF move THEN Moved ELSE @]
+                 cls == "src=engaged,dst=" \o st[d].s \o ",throws"
+             IN Step(name, [d |-> d, s |-> s], cls, s1, <<E("read", s)>>, Dst(s1, d) @@ Src(s1, s) @@ Threw(s1))
+     ELSE LET s1  == [st EXCEPT ![d] = Given(st[s]), ![s] = IF move /\ IsEng(st[s]) THEN Moved ELSE @]
+              ev  == IF IsEng(st[s])
+                     THEN <<E("read", s), IF st[d].s = "empty" THEN E("ctor", d) ELSE E("assign", d)>>
+                     ELSE IF st[d].s = "empty" THEN <<>> ELSE <<E("dtor", d)>>
+              cls == (IF s = d THEN "src=self" ELSE "src=" \o st[s].s) \o ",dst=" \o st[d].s
+          IN Step(name, [d |-> d, s |-> s], cls, s1, ev, Dst(s1, d) @@ Src(s1, s) @@ Base(s1))
 
 CopyAssign(d, s)     == SameKind(d, s) /\ AssignFrom("CopyAssign", d, s, FALSE)      \* s = d: self-assignment
 MoveAssign(d, s)     == SameKind(d, s) /\ AssignFrom("MoveAssign", d, s, TRUE)
 ConvCopyAssign(d, s) == Converts(d, s) /\ AssignFrom("ConvCopyAssign", d, s, FALSE)
 ConvMoveAssign(d, s) == Converts(d, s) /\ AssignFrom("ConvMoveAssign", d, s, TRUE)
 
-Emplace(d, v) ==
-  /\ d \in OSlots /\ Constructed(st[d])
-  /\ LET s1 == [st EXCEPT ![d] = OptVal(v)]
-         ev == IF st[d].s = "empty" THEN <<E("ctor", d)>> ELSE <<E("dtor", d), E("ctor", d)>>
-     IN Step("Emplace", [d |-> d, v |-> v], "dst=" \o st[d].s, s1, ev, Ret(v) @@ Dst(s1, d) @@ Base(s1))
+\* t: the payload constructor throws inside emplace(): the old payload is gone, none was given
+Emplace(d, v, t) ==
+  /\ d \in OSlots /\ Constructed(st[d]) /\ (t => Throwing)
+  /\ IF t THEN LET s1 == [st EXCEPT ![d] = Empty]
+                   ev == IF st[d].s = "empty" THEN <<>> ELSE <<E("dtor", d)>>
+               IN Step("Emplace", [d |-> d, v |-> v, t |-> t], "dst=" \o st[d].s \o ",throws", s1, ev, Dst(s1, d) @@ Threw(s1))
+     ELSE LET s1 == [st EXCEPT ![d] = OptVal(v)]
+              ev == IF st[d].s = "empty" THEN <<E("ctor", d)>> ELSE <<E("dtor", d), E("ctor", d)>>
+          IN Step("Emplace", [d |-> d, v |-> v, t |-> t], "dst=" \o st[d].s, s1, ev, Ret(v) @@ Dst(s1, d) @@ Base(s1))
 
 \* Optional::reset()  (named ResetValue: "Reset" is the execution separator of recorded traces)
 ResetValue(d) ==
@@ -210,12 +256,21 @@ Mutate(d, v) ==
   /\ LET s1 == [st EXCEPT ![d] = OptVal(v)]
      IN Step("Mutate", [d |-> d, v |-> v], "", s1, <<E("assign", d)>>, Dst(s1, d) @@ Base(s1))
 
+\* poison the held payload through the reference returned by value(): taking its value throws from now on
+Poison(d) ==
+  /\ Throwing /\ d \in OSlots /\ IsEng(st[d]) /\ ~st[d].p
+  /\ LET s1 == [st EXCEPT ![d].p = TRUE]
+     IN Step("Poison", [d |-> d], "", s1, <<>>, Dst(s1, d) @@ Base(s1))
+
 \* Optional: observers (state unchanged)
 
+\* value_or returns a copy of the payload: it throws if that copy throws
 ValueOr(d, x) ==
   /\ d \in OSlots /\ Usable(st[d])
-  /\ Step("ValueOr", [d |-> d, v |-> x], "a=" \o st[d].s, st, IF IsEng(st[d]) THEN <<E("read", d)>> ELSE <<>>,
-          Ret(IF IsEng(st[d]) THEN st[d].v ELSE x) @@ Base(st))
+  /\ IF Poisoned(st[d])
+     THEN Step("ValueOr", [d |-> d, v |-> x], "a=engaged,throws", st, <<E("read", d)>>, Threw(st))
+     ELSE Step("ValueOr", [d |-> d, v |-> x], "a=" \o st[d].s, st, IF IsEng(st[d]) THEN <<E("read", d)>> ELSE <<>>,
+               Ret(IF IsEng(st[d]) THEN st[d].v ELSE x) @@ Base(st))
 
 \* has_value(), operator bool, and for an engaged wrapper value(), operator*, operator->; toString() returns
 Observe(d) ==
@@ -256,29 +311,41 @@ AnyDefaultCtor(d) ==
   /\ LET s1 == [st EXCEPT ![d] = Empty]
      IN Step("AnyDefaultCtor", [d |-> d], "", s1, <<>>, Dst(s1, d) @@ Base(s1))
 
-AnyValueCtor(d, ty, v) ==
-  /\ d \in ASlots /\ st[d].s = "none"
-  /\ LET s1 == [st EXCEPT ![d] = Eng(ty, v)]
-     IN Step("AnyValueCtor", [d |-> d, ty |-> ty, v |-> v], "", s1, <<>>, Dst(s1, d) @@ Base(s1))
+AnyValueCtor(d, ty, v, t) ==
+  /\ d \in ASlots /\ st[d].s = "none" /\ (t => Throwing)
+  /\ IF t THEN Step("AnyValueCtor", [d |-> d, ty |-> ty, v |-> v, t |-> t], "throws", st, <<>>, Dst(st, d) @@ Threw(st))
+     ELSE LET s1 == [st EXCEPT ![d] = Eng(ty, v)]
+          IN Step("AnyValueCtor", [d |-> d, ty |-> ty, v |-> v, t |-> t], "", s1, <<>>, Dst(s1, d) @@ Base(s1))
 
 AnyCtorFrom(name, d, s, move) ==
   /\ d \in ASlots /\ s \in ASlots /\ st[d].s = "none" /\ s # d /\ Usable(st[s])
-  /\ LET s1 == [st EXCEPT ![d] = Given(st[s]), ![s] = IF move /\ IsEng(st[s]) THEN Moved ELSE @]
-     IN Step(name, [d |-> d, s |-> s], "src=" \o st[s].s, s1, <<>>, Dst(s1, d) @@ Src(s1, s) @@ Base(s1))
+  /\ IF Poisoned(st[s])
+     THEN LET s1 == [st EXCEPT ![s] = IF move THEN Moved ELSE @]
+          IN Step(name, [d |-> d, s |-> s], "src=engaged,throws", s1, <<>>, Dst(s1, d) @@ Src(s1, s) @@ Threw(s1))
+     ELSE LET s1 == [st EXCEPT ![d] = Given(st[s]), ![s] = IF move /\ IsEng(st[s]) THEN Moved ELSE @]
+          IN Step(name, [d |-> d, s |-> s], "src=" \o st[s].s, s1, <<>>, Dst(s1, d) @@ Src(s1, s) @@ Base(s1))
 
 AnyCopyCtor(d, s) == AnyCtorFrom("AnyCopyCtor", d, s, FALSE)
 AnyMoveCtor(d, s) == AnyCtorFrom("AnyMoveCtor", d, s, TRUE)       \* Any(std::move(src))
 
-AnyAssignValue(d, ty, v) ==
-  /\ d \in ASlots /\ Constructed(st[d])
-  /\ LET s1 == [st EXCEPT ![d] = Eng(ty, v)]
-     IN Step("AnyAssignValue", [d |-> d, ty |-> ty, v |-> v], "dst=" \o st[d].s, s1, <<>>, Dst(s1, d) @@ Base(s1))
+AnyAssignValue(d, ty, v, t) ==
+  /\ d \in ASlots /\ Constructed(st[d]) /\ (t => Throwing)
+  /\ IF t THEN LET s1 == [st EXCEPT ![d] = AfterFailedAssign(@)]
+               IN Step("AnyAssignValue", [d |-> d, ty |-> ty, v |-> v, t |-> t], "dst=" \o st[d].s \o ",throws", s1, <<>>,
+                       Dst(s1, d) @@ Threw(s1))
+     ELSE LET s1 == [st EXCEPT ![d] = Eng(ty, v)]
+          IN Step("AnyAssignValue", [d |-> d, ty |-> ty, v |-> v, t |-> t], "dst=" \o st[d].s, s1, <<>>, Dst(s1, d) @@ Base(s1))
 
 AnyAssignFrom(name, d, s, move) ==
   /\ d \in ASlots /\ s \in ASlots /\ Constructed(st[d]) /\ Usable(st[s]) /\ (move => s # d)
-  /\ LET s1  == [st EXCEPT ![d] = Given(st[s]), ![s] = IF move /\ IsEng(st[s]) THEN Moved ELSE @]
-         cls == (IF s = d THEN "src=self" ELSE "src=" \o st[s].s) \o ",dst=" \o st[d].s
-     IN Step(name, [d |-> d, s |-> s], cls, s1, <<>>, Dst(s1, d) @@ Src(s1, s) @@ Base(s1))
+  /\ IF Poisoned(st[s])
+     THEN /\ s # d
+          /\ LET s1 == [st EXCEPT ![d] = AfterFailedAssign(@), ![s] = IF move THEN Moved ELSE @]
+             IN Step(name, [d |-> d, s |-> s], "src=engaged,dst=" \o st[d].s \o ",throws", s1, <<>>,
+                     Dst(s1, d) @@ Src(s1, s) @@ Threw(s1))
+     ELSE LET s1  == [st EXCEPT ![d] = Given(st[s]), ![s] = IF move /\ IsEng(st[s]) THEN Moved ELSE @]
+              cls == (IF s = d THEN "src=self" ELSE "src=" \o st[s].s) \o ",dst=" \o st[d].s
+          IN Step(name, [d |-> d, s |-> s], cls, s1, <<>>, Dst(s1, d) @@ Src(s1, s) @@ Base(s1))
 
 AnyCopyAssign(d, s) == AnyAssignFrom("AnyCopyAssign", d, s, FALSE)
 AnyMoveAssign(d, s) == AnyAssignFrom("AnyMoveAssign", d, s, TRUE)
@@ -287,6 +354,12 @@ AnyDestroy(d) ==
   /\ d \in ASlots /\ Constructed(st[d])
   /\ LET s1 == [st EXCEPT ![d] = None]
      IN Step("AnyDestroy", [d |-> d], "dst=" \o st[d].s, s1, <<>>, Dst(s1, d) @@ Base(s1))
+
+\* poison the held object through the reference get<ty>() returns
+AnyPoison(d) ==
+  /\ Throwing /\ d \in ASlots /\ IsEng(st[d]) /\ ~st[d].p
+  /\ LET s1 == [st EXCEPT ![d].p = TRUE]
+     IN Step("AnyPoison", [d |-> d], "", s1, <<>>, Dst(s1, d) @@ Base(s1))
 
 TypeCls(x, ty) == IF ~IsEng(x) THEN "a=empty" ELSE IF x.ty = ty THEN "a=engaged,type=right" ELSE "a=engaged,type=wrong"
 
@@ -336,15 +409,17 @@ Teardown ==
 \* everything except the two stateless layout probes
 NextCore ==
   \/ \E d \in OSlots :
-        \/ DefaultCtor(d) \/ ResetValue(d) \/ Destroy(d) \/ Observe(d)
-        \/ \E v \in Vals : ValueCtor(d, v) \/ AssignValue(d, v) \/ Emplace(d, v) \/ Mutate(d, v) \/ ValueOr(d, v)
+        \/ DefaultCtor(d) \/ ResetValue(d) \/ Destroy(d) \/ Observe(d) \/ Poison(d)
+        \/ \E v \in Vals : \/ Mutate(d, v) \/ ValueOr(d, v)
+                            \/ \E t \in BOOLEAN : ValueCtor(d, v, t) \/ MakeOptional(d, v, t) \/ AssignValue(d, v, t) \/ Emplace(d, v, t)
         \/ \E s \in OSlots : \/ CopyCtor(d, s) \/ MoveCtor(d, s) \/ ConvCopyCtor(d, s) \/ ConvMoveCtor(d, s)
                              \/ CopyAssign(d, s) \/ MoveAssign(d, s) \/ ConvCopyAssign(d, s) \/ ConvMoveAssign(d, s)
                              \/ Compare(d, s)
   \/ \E d \in ASlots :
-        \/ AnyDefaultCtor(d) \/ AnyDestroy(d) \/ AnyObserve(d) \/ AnyToString(d)
+        \/ AnyDefaultCtor(d) \/ AnyDestroy(d) \/ AnyObserve(d) \/ AnyToString(d) \/ AnyPoison(d)
         \/ \E ty \in AnyTypes : \/ AnyGet(d, ty)
-                                \/ \E v \in Vals : AnyValueCtor(d, ty, v) \/ AnyAssignValue(d, ty, v) \/ AnySet(d, ty, v)
+                                \/ \E v \in Vals : \/ AnySet(d, ty, v)
+                                                    \/ \E t \in BOOLEAN : AnyValueCtor(d, ty, v, t) \/ AnyAssignValue(d, ty, v, t)
         \/ \E s \in ASlots : AnyCopyCtor(d, s) \/ AnyMoveCtor(d, s) \/ AnyCopyAssign(d, s) \/ AnyMoveAssign(d, s) \/ AnyEquals(d, s)
   \/ Teardown
 
@@ -367,10 +442,19 @@ Independence == [][\A w \in Slots \ Touched(last') : st'[w] = st[w]]_vars
 
 \* a copy equals its source and leaves the source untouched
 CopyActions == {"CopyCtor", "ConvCopyCtor", "CopyAssign", "ConvCopyAssign", "AnyCopyCtor", "AnyCopyAssign"}
-CopiesEqualSource == [][last'.a \in CopyActions =>
-                          /\ st'[last'.arg.s] = st[last'.arg.s]
-                          /\ st'[last'.arg.d].s = st[last'.arg.s].s /\ st'[last'.arg.d].v = st[last'.arg.s].v
-                          /\ st'[last'.arg.d].ty = st[last'.arg.s].ty]_vars
+CopyOK(s0, s1, l) == l.a \in CopyActions =>
+                          /\ s1[l.arg.s] = s0[l.arg.s]                       \* also when the copy throws
+                          /\ l.exp.done = "returned" =>
+                               /\ s1[l.arg.d].s = s0[l.arg.s].s /\ s1[l.arg.d].v = s0[l.arg.s].v
+                               /\ s1[l.arg.d].ty = s0[l.arg.s].ty
+CopiesEqualSource == [][CopyOK(st, st', last')]_vars
+
+\* after a step that threw, nothing new is held: no wrapper came into existence, no wrapper became engaged,
+\* and no value changed
+NothingGivenByThrow ==
+  [][last'.exp.done = "throws" =>
+       \A w \in Slots : /\ (st[w].s = "none" => st'[w].s = "none")
+                        /\ (IsEng(st'[w]) => st'[w] = st[w])]_vars
 
 \* the observables published in `last` are those of the current state
 LastAgrees == last.exp.world = World(st) /\ last.exp.life = Life(st)
